@@ -169,7 +169,7 @@ CkGlobals(file, i, g) ==
   IF i > Len(file.globals) THEN [ok |-> TRUE, g |-> g]
   ELSE LET d == file.globals[i] IN
        IF d.name \in DOMAIN g THEN Bad("DuplicateGlobalVariable", d.loc, d.name)
-       ELSE CkGlobals(file, i + 1, MapPut(g, d.name, [local |-> TRUE, q |-> d.q]))
+       ELSE LET g1 == MapPut(g, d.name, [local |-> TRUE, q |-> d.q]) IN CkGlobals(file, i + 1, g1)
 
 CkShorthands(file, i, j) ==
   IF i > Len(file.shorthands) THEN Good
